@@ -22,6 +22,7 @@ fn main() {
         "sched" => e_graph::run_sched(&a),
         "post" => e_graph::run_post(&a),
         "perm" => e_graph::run_perm(&a),
+        "helpers" => e_graph::run_helpers(&a),
         "types" => e_types::run(&a),
         "sign" => e_sign::run(&a),
         "lock" => e_lock::run(&a),
